@@ -4,465 +4,359 @@ From NG Require Import Common.Tactics Codec.Bigint Codec.Wire Codec.WireProofs C
 From NG Require Import Codec.MptCodec Codec.MptCodecProofs Codec.MptCodecTrie Codec.StateCodec Codec.StateCodecProofs Codec.ExecCodec Codec.ExecCodecProofs Codec.NetCodec Codec.NetCodecProofs.
 Open Scope Z_scope.
 
-(* ---------- reader / writer primitives (pkg/io) ---------- *)
+(* One theorem per type: the conjunction of its family (decode_encode, decode_wf, decode_canonical, decode_total,
+   size_eq, allocation bounds, as far as they apply); the parts are named in the comment above each theorem and are
+   separate lemmas of the same names (without the C17_ prefix) in coq/Codec/*Proofs.v. *)
 
-(* var-uint: what the writer produces, the reader returns, leaving exactly the rest *)
-Theorem C17_varuint_decode_encode : forall v rest, u64_ok v -> read_varuint (write_varuint v ++ rest) = Some (v, rest).
-Proof. exact varuint_roundtrip. Qed.
-Print Assumptions C17_varuint_decode_encode.
-
-(* the reader accepts non-minimal forms: every wider form of a value that fits decodes to that value *)
-Theorem C17_varuint_nonminimal_accepted : forall v rest,
+(* ---------- var-uint (pkg/io) ---------- *)
+(* parts: varuint_decode_encode, varuint_nonminimal_accepted, varuint_decode_canonical, varuint_minimal, varuint_size_eq, varuint_decode_total *)
+Theorem C17_varuint_codec :
+  (forall v rest, u64_ok v -> read_varuint (write_varuint v ++ rest) = Some (v, rest)) /\
+  (forall v rest,
   (0 <= v < 2 ^ 16 -> read_varuint (253 :: le_bytes 2 v ++ rest) = Some (v, rest)) /\
   (0 <= v < 2 ^ 32 -> read_varuint (254 :: le_bytes 4 v ++ rest) = Some (v, rest)) /\
-  (0 <= v < 2 ^ 64 -> read_varuint (255 :: le_bytes 8 v ++ rest) = Some (v, rest)).
-Proof. exact varuint_nonminimal_accepted. Qed.
-Print Assumptions C17_varuint_nonminimal_accepted.
+  (0 <= v < 2 ^ 64 -> read_varuint (255 :: le_bytes 8 v ++ rest) = Some (v, rest))) /\
+  (forall bs v rest rest',
+  bytes_ok bs -> read_varuint bs = Some (v, rest) -> read_varuint (write_varuint v ++ rest') = Some (v, rest')) /\
+  (forall bs v rest,
+  bytes_ok bs -> read_varuint bs = Some (v, rest) -> (length (write_varuint v) + length rest <= length bs)%nat) /\
+  (forall v, 0 <= v <= 4294967295 -> varuint_size v = Z.of_nat (length (write_varuint v))) /\
+  (forall bs v rest,
+  bytes_ok bs -> read_varuint bs = Some (v, rest) -> u64_ok v /\ bytes_ok rest /\ (length rest < length bs)%nat).
+Proof. exact (conj varuint_roundtrip (conj varuint_nonminimal_accepted (conj varuint_canonical (conj varuint_minimal (conj varuint_size_eq read_varuint_some))))). Qed.
+Print Assumptions C17_varuint_codec.
 
-(* decode_canonical: whatever form was read, the writer's form of the value decodes to the same value *)
-Theorem C17_varuint_decode_canonical : forall bs v rest rest',
-  bytes_ok bs -> read_varuint bs = Some (v, rest) -> read_varuint (write_varuint v ++ rest') = Some (v, rest').
-Proof. exact varuint_canonical. Qed.
-Print Assumptions C17_varuint_decode_canonical.
+(* ---------- var-bytes with a maximum ---------- *)
+(* parts: varbytes_decode_encode, varbytes_decode_canonical, varbytes_alloc_bounded, varbytes_rejects_over_max, varbytes_size_eq *)
+Theorem C17_varbytes_codec :
+  (forall max b rest,
+  Z.of_nat (length b) <= max -> Z.of_nat (length b) < 2 ^ 64 -> read_varbytes max (write_varbytes b ++ rest) = Some (b, rest)) /\
+  (forall max bs b rest rest',
+  bytes_ok bs -> read_varbytes max bs = Some (b, rest) -> read_varbytes max (write_varbytes b ++ rest') = Some (b, rest')) /\
+  (forall max bs b rest,
+  bytes_ok bs -> read_varbytes max bs = Some (b, rest) -> Z.of_nat (length b) <= max) /\
+  (forall max bs n r,
+  read_varuint bs = Some (n, r) -> max < n -> read_varbytes max bs = None) /\
+  (forall b, Z.of_nat (length b) <= 4294967295 ->
+  varbytes_size b = Z.of_nat (length (write_varbytes b))).
+Proof. exact (conj varbytes_roundtrip (conj varbytes_canonical (conj varbytes_alloc_bounded (conj varbytes_rejects_over_max varbytes_size_eq)))). Qed.
+Print Assumptions C17_varbytes_codec.
 
-(* ... and the writer's form is never longer than the form that was read *)
-Theorem C17_varuint_minimal : forall bs v rest,
-  bytes_ok bs -> read_varuint bs = Some (v, rest) -> (length (write_varuint v) + length rest <= length bs)%nat.
-Proof. exact varuint_minimal. Qed.
-Print Assumptions C17_varuint_minimal.
+(* ---------- fixed-width little-endian integers ---------- *)
+(* parts: fixed_int_decode_encode, fixed_int_decode_unique *)
+Theorem C17_fixedint_codec :
+  (forall n v rest,
+  0 <= v < 2 ^ (8 * Z.of_nat n) -> read_u n (write_u n v ++ rest) = Some (v, rest)) /\
+  (forall n bs v rest,
+  bytes_ok bs -> read_u n bs = Some (v, rest) -> 0 <= v < 2 ^ (8 * Z.of_nat n) /\ bs = le_bytes n v ++ rest /\ bytes_ok rest).
+Proof. exact (conj read_u_write read_u_some). Qed.
+Print Assumptions C17_fixedint_codec.
 
-(* size_eq: io.getVarIntSize is the length of the written form for every length-like value *)
-Theorem C17_varuint_size_eq : forall v, 0 <= v <= 4294967295 -> varuint_size v = Z.of_nat (length (write_varuint v)).
-Proof. exact varuint_size_eq. Qed.
-Print Assumptions C17_varuint_size_eq.
-
-(* decode_total: a successful read consumes at least one byte and never invents input *)
-Theorem C17_varuint_decode_total : forall bs v rest,
-  bytes_ok bs -> read_varuint bs = Some (v, rest) -> u64_ok v /\ bytes_ok rest /\ (length rest < length bs)%nat.
-Proof. exact read_varuint_some. Qed.
-Print Assumptions C17_varuint_decode_total.
-
-(* var-bytes with a maximum *)
-Theorem C17_varbytes_decode_encode : forall max b rest,
-  Z.of_nat (length b) <= max -> Z.of_nat (length b) < 2 ^ 64 -> read_varbytes max (write_varbytes b ++ rest) = Some (b, rest).
-Proof. exact varbytes_roundtrip. Qed.
-Print Assumptions C17_varbytes_decode_encode.
-
-Theorem C17_varbytes_decode_canonical : forall max bs b rest rest',
-  bytes_ok bs -> read_varbytes max bs = Some (b, rest) -> read_varbytes max (write_varbytes b ++ rest') = Some (b, rest').
-Proof. exact varbytes_canonical. Qed.
-Print Assumptions C17_varbytes_decode_canonical.
-
-(* alloc_bounded: the length is checked against the maximum before the buffer exists *)
-Theorem C17_varbytes_alloc_bounded : forall max bs b rest,
-  bytes_ok bs -> read_varbytes max bs = Some (b, rest) -> Z.of_nat (length b) <= max.
-Proof. exact varbytes_alloc_bounded. Qed.
-Print Assumptions C17_varbytes_alloc_bounded.
-
-Theorem C17_varbytes_rejects_over_max : forall max bs n r,
-  read_varuint bs = Some (n, r) -> max < n -> read_varbytes max bs = None.
-Proof. exact varbytes_rejects_over_max. Qed.
-Print Assumptions C17_varbytes_rejects_over_max.
-
-Theorem C17_varbytes_size_eq : forall b, Z.of_nat (length b) <= 4294967295 ->
-  varbytes_size b = Z.of_nat (length (write_varbytes b)).
-Proof. exact varbytes_size_eq. Qed.
-Print Assumptions C17_varbytes_size_eq.
-
-(* fixed-width little-endian integers *)
-Theorem C17_fixed_int_decode_encode : forall n v rest,
-  0 <= v < 2 ^ (8 * Z.of_nat n) -> read_u n (write_u n v ++ rest) = Some (v, rest).
-Proof. exact read_u_write. Qed.
-Print Assumptions C17_fixed_int_decode_encode.
-
-Theorem C17_fixed_int_decode_unique : forall n bs v rest,
-  bytes_ok bs -> read_u n bs = Some (v, rest) -> 0 <= v < 2 ^ (8 * Z.of_nat n) /\ bs = le_bytes n v ++ rest /\ bytes_ok rest.
-Proof. exact read_u_some. Qed.
-Print Assumptions C17_fixed_int_decode_unique.
-
-(* arrays of any element codec: ReadArray(max) / WriteArray *)
-Theorem C17_array_decode_encode : forall (A : Type) (wf : A -> Prop) w (d : dec A) max,
+(* ---------- arrays of any element codec (ReadArray / WriteArray, GetVarSize of a slice) ---------- *)
+(* parts: array_decode_encode, array_size_eq *)
+Theorem C17_array_codec :
+  (forall (A : Type) (wf : A -> Prop) w (d : dec A) max,
   codec_ok wf w d -> forall l rest, Forall wf l -> Z.of_nat (length l) <= max -> Z.of_nat (length l) < 2 ^ 64 ->
-  read_array d max (write_array w l ++ rest) = Some (l, rest).
-Proof. exact @array_roundtrip. Qed.
-Print Assumptions C17_array_decode_encode.
-
-Theorem C17_array_size_eq : forall (A : Type) (w : A -> list Z) (sz : A -> Z) l,
+  read_array d max (write_array w l ++ rest) = Some (l, rest)) /\
+  (forall (A : Type) (w : A -> list Z) (sz : A -> Z) l,
   Z.of_nat (length l) <= 4294967295 -> Forall (fun x => sz x = Z.of_nat (length (w x))) l ->
-  array_size sz l = Z.of_nat (length (write_array w l)).
-Proof. exact @array_size_eq. Qed.
-Print Assumptions C17_array_size_eq.
+  array_size sz l = Z.of_nat (length (write_array w l))).
+Proof. exact (conj (@array_roundtrip) (@array_size_eq)). Qed.
+Print Assumptions C17_array_codec.
 
+(* ---------- transaction.Witness ---------- *)
+(* parts: witness_decode_encode, witness_decode_canonical, witness_size_eq *)
+Theorem C17_witness_codec :
+  (codec_ok witness_wf write_witness read_witness) /\
+  (forall bs w rest rest', bytes_ok bs -> read_witness bs = Some (w, rest) ->
+  read_witness (write_witness w ++ rest') = Some (w, rest')) /\
+  (forall w, witness_wf w -> witness_size w = Z.of_nat (length (write_witness w))).
+Proof. exact (conj witness_decode_encode (conj witness_canonical witness_size_eq)). Qed.
+Print Assumptions C17_witness_codec.
+
+(* ---------- transaction.Attribute ---------- *)
+(* parts: attr_decode_encode, attr_decode_canonical *)
+Theorem C17_attr_codec :
+  (codec_ok attr_wf write_attr read_attr) /\
+  (forall bs a rest rest', bytes_ok bs -> read_attr bs = Some (a, rest) ->
+  read_attr (write_attr a ++ rest') = Some (a, rest')).
+Proof. exact (conj attr_decode_encode attr_canonical). Qed.
+Print Assumptions C17_attr_codec.
+
+(* ---------- witness conditions (recursive, nesting limit = the decoder own depth argument) ---------- *)
+(* parts: cond_decode_encode, cond_decode_wf, cond_decode_canonical, cond_depth_limit, cond_decode_total *)
+Theorem C17_cond_codec :
+  (forall d, codec_ok (cond_wf d) write_cond (read_cond d)) /\
+  (forall d, dec_wf (cond_wf d) (read_cond d)) /\
+  (forall d bs c rest rest', bytes_ok bs -> read_cond d bs = Some (c, rest) ->
+  read_cond d (write_cond c ++ rest') = Some (c, rest')) /\
+  (forall d bs c rest, read_cond d bs = Some (c, rest) -> (cond_depth c <= d)%nat) /\
+  (forall d, dec_consumes (read_cond d)).
+Proof. exact (conj cond_decode_encode (conj cond_decode_wf (conj cond_canonical (conj cond_depth_bound cond_consumes)))). Qed.
+Print Assumptions C17_cond_codec.
+
+(* ---------- transaction.Signer ---------- *)
+(* parts: signer_decode_encode, signer_decode_wf, signer_decode_canonical *)
+Theorem C17_signer_codec :
+  (codec_ok signer_wf write_signer read_signer) /\
+  (dec_wf signer_wf read_signer) /\
+  (forall bs v rest rest', bytes_ok bs -> read_signer bs = Some (v, rest) ->
+  read_signer (write_signer v ++ rest') = Some (v, rest')).
+Proof. exact (conj signer_decode_encode (conj signer_decode_wf signer_canonical)). Qed.
+Print Assumptions C17_signer_codec.
+
+(* ---------- transaction (both decode paths; identity = function of the decoded value, F9 witness) ---------- *)
+(* parts: tx_decode_encode, tx_stream_decode_encode, tx_decode_canonical, tx_size_le_received, tx_identity_not_bytes, tx_decode_total *)
+Theorem C17_tx_codec :
+  (forall t, tx_wf t -> tx_from_bytes (write_tx t) = Some t) /\
+  (codec_ok tx_wf write_tx read_tx) /\
+  (forall bs t, bytes_ok bs -> tx_from_bytes bs = Some t ->
+  tx_from_bytes (write_tx t) = Some t /\ tx_wf t) /\
+  (forall bs t, bytes_ok bs -> tx_from_bytes bs = Some t -> tx_size t <= Z.of_nat (length bs)) /\
+  (exists bs1 bs2 t, bs1 <> bs2 /\ tx_from_bytes bs1 = Some t /\ tx_from_bytes bs2 = Some t) /\
+  (dec_consumes read_tx).
+Proof. exact (conj tx_roundtrip (conj tx_decode_encode (conj tx_canonical (conj tx_size_le_received (conj tx_identity_not_bytes tx_consumes))))). Qed.
+Print Assumptions C17_tx_codec.
+
+(* ---------- block.Header ---------- *)
+(* parts: header_decode_encode, header_decode_canonical *)
+Theorem C17_header_codec :
+  (forall sr h, header_wf sr h -> decode_all (read_header sr) (write_header sr h) = Some h) /\
+  (forall sr bs h, bytes_ok bs -> decode_all (read_header sr) bs = Some h ->
+  decode_all (read_header sr) (write_header sr h) = Some h /\ header_wf sr h /\ (length (write_header sr h) <= length bs)%nat).
+Proof. exact (conj header_roundtrip header_whole_canonical). Qed.
+Print Assumptions C17_header_codec.
+
+(* ---------- block.Block (shape) ---------- *)
+(* parts: block_decode_encode, block_decode_canonical, block_tx_count_bounded *)
+Theorem C17_block_codec :
+  (forall sr b, block_wf sr b -> decode_all (read_block sr) (write_block sr b) = Some b) /\
+  (forall sr bs b, bytes_ok bs -> decode_all (read_block sr) bs = Some b ->
+  decode_all (read_block sr) (write_block sr b) = Some b /\ block_wf sr b /\ (length (write_block sr b) <= length bs)%nat) /\
+  (forall sr bs b rest,
+  read_block sr bs = Some (b, rest) -> (length (btxs b) + length rest < length bs)%nat).
+Proof. exact (conj block_roundtrip (conj block_whole_canonical block_tx_count_bounded)). Qed.
+Print Assumptions C17_block_codec.
+
+(* ---------- stack-item serialisation, normal mode ---------- *)
+(* parts: item_serialize_spec, item_decode_encode, item_decode_wf, item_count_bounded, item_decode_canonical, item_decode_total, item_decode_budget *)
+Theorem C17_item_codec :
+  (forall i,
+  serialize i = if plain i && (count_item i <=? max_items)%nat && (Z.of_nat (length (enc_item i)) <=? max_size)
+                then Some (enc_item i) else None) /\
+  (forall i bs, item_wf i -> serialize i = Some bs -> deserialize bs = Some i) /\
+  (forall bs i, bytes_ok bs -> deserialize bs = Some i -> item_wf i) /\
+  (forall bs i, deserialize bs = Some i -> (count_item i <= max_items)%nat) /\
+  (forall bs i,
+  bytes_ok bs -> Z.of_nat (length bs) <= max_size -> deserialize bs = Some i ->
+  exists bs', serialize i = Some bs' /\ deserialize bs' = Some i /\ (length bs' <= length bs)%nat) /\
+  (forall prot f f' lim bs,
+  (length bs < f)%nat -> (length bs < f')%nat -> read_item prot f lim bs = read_item prot f' lim bs) /\
+  (forall prot f lim bs i lim' rest,
+  read_item prot f lim bs = Some (i, lim', rest) -> (lim' + count_item i <= lim)%nat /\ (length rest < length bs)%nat).
+Proof. exact (conj serialize_spec (conj deserialize_serialize (conj deserialize_wf (conj deserialize_limits (conj deserialize_canonical (conj read_item_fuel_enough read_item_budget)))))). Qed.
+Print Assumptions C17_item_codec.
+
+(* ---------- MPT node encodings, for every 32-byte node hash function ---------- *)
+(* parts: mptnode_decode_encode, mptnode_decode_collapse, mptnode_decode_wf, mptnode_decode_canonical, mptnode_hash_content_only, mptnode_reencoding_bound, mptnode_decode_total, mptnode_size_eq *)
+Theorem C17_mptnode_codec :
+  (forall H : list Z -> list Z, (forall b, length (H b) = 32%nat) ->
+  forall n f d rest, mnode_wf n -> mnode_canonical n -> (2 <= f)%nat -> d + node_levels n <= 137 ->
+  read_node f d (write_node H n ++ rest) = Some (n, rest)) /\
+  (forall H : list Z -> list Z, (forall b, length (H b) = 32%nat) ->
+  forall n f d rest, mnode_wf n -> (2 <= f)%nat -> d + node_levels n <= 137 ->
+  read_node f d (write_node H n ++ rest) = Some (collapse1 H n, rest)) /\
+  (forall f d bs n rest, bytes_ok bs -> read_node f d bs = Some (n, rest) ->
+  mnode_wf n /\ bytes_ok rest /\ (length rest < length bs)%nat /\ Z.of_nat (mnode_depth n) + d <= 137) /\
+  (forall H : list Z -> list Z, (forall b, length (H b) = 32%nat) ->
+  forall bs n rest rest', bytes_ok bs -> decode_node bs = Some (n, rest) ->
+  decode_node (write_node H n ++ rest') = Some (collapse1 H n, rest')) /\
+  (forall (H : list Z -> list Z) n, node_hash H (collapse1 H n) = node_hash H n) /\
+  (forall H : list Z -> list Z, (forall b, length (H b) = 32%nat) ->
+  forall f d bs n rest, bytes_ok bs -> read_node f d bs = Some (n, rest) ->
+  (length (write_node H n) + length rest <= length bs + 32 * inline_count n)%nat) /\
+  (forall f f' d bs, (length bs < f)%nat -> (length bs < f')%nat -> read_node f d bs = read_node f' d bs) /\
+  (forall H : list Z -> list Z, (forall b, length (H b) = 32%nat) ->
+  forall n, mnode_wf n -> (forall k nx, n = MExt k nx -> nx <> MEmpty) -> node_size n + 1 = Z.of_nat (length (write_node H n))).
+Proof. exact (conj node_decode_encode (conj node_decode_collapse (conj node_decode_wf (conj node_decode_canonical (conj node_hash_collapse1 (conj node_reencoding_bound (conj node_decode_total node_size_eq))))))). Qed.
+Print Assumptions C17_mptnode_codec.
+
+(* ---------- agreement of the byte-level node codec with the trie model of C10/C20 (coq/Trie/Model.v); the exclusion is the footprint of F19 ---------- *)
+(* parts: node_codec_is_trie_enc, node_decoder_is_trie_decode *)
+Theorem C17_mptnode_trie_codec :
+  (forall (H : list N -> list N) t, trie_wf t -> no_leaf_65535 t ->
+  map Z.of_N (NG.Trie.Model.enc H t) = write_node (HZ H) (of_trie t)) /\
+  (forall f d bs,
+  option_map (fun p => (to_trie (fst p), map Z.to_N (snd p))) (read_node f (Z.of_N d) (map Z.of_N bs)) = NG.Trie.Model.decode f d bs).
+Proof. exact (conj node_codec_is_trie_enc node_decoder_is_trie_decode). Qed.
+Print Assumptions C17_mptnode_trie_codec.
+
+(* ---------- state.MPTRoot ---------- *)
+(* parts: mptroot_decode_encode, mptroot_decode_wf, mptroot_decode_canonical, mptroot_decode_total, mptroot_size_eq, mptroot_hash_content_only *)
+Theorem C17_mptroot_codec :
+  (codec_ok mptroot_wf write_mptroot read_mptroot) /\
+  (dec_wf mptroot_wf read_mptroot) /\
+  (forall bs r, bytes_ok bs -> decode_all read_mptroot bs = Some r ->
+  decode_all read_mptroot (write_mptroot r) = Some r /\ mptroot_wf r /\ (length (write_mptroot r) <= length bs)%nat) /\
+  (dec_consumes read_mptroot) /\
+  (forall r, mptroot_wf r -> Z.of_nat (length (write_mptroot r)) = 37 + array_size witness_size (rwitness r)) /\
+  (forall bs1 bs2 r1 r2 rest1 rest2,
+  read_mptroot bs1 = Some (r1, rest1) -> read_mptroot bs2 = Some (r2, rest2) ->
+  rversion r1 = rversion r2 -> rindex r1 = rindex r2 -> rroot r1 = rroot r2 ->
+  write_mptroot_unsigned r1 = write_mptroot_unsigned r2).
+Proof. exact (conj mptroot_decode_encode (conj mptroot_decode_wf (conj mptroot_whole_canonical (conj mptroot_consumes (conj mptroot_size_eq mptroot_hash_content_only))))). Qed.
+Print Assumptions C17_mptroot_codec.
+
+(* ---------- stack-item serialisation, protected mode ---------- *)
+(* parts: item_protected_decode_encode, item_protected_total *)
+Theorem C17_item_protected_codec :
+  (forall i, item_wf_p i -> (count_item i <= max_items)%nat -> deserialize_gen true (enc_item i) = Some i) /\
+  (forall i,
+  serialize_prot i = if (count_item i <=? max_items)%nat && (Z.of_nat (length (enc_item i)) <=? max_size) then enc_item i else [255]).
+Proof. exact (conj deserialize_p_enc serialize_prot_total). Qed.
+Print Assumptions C17_item_protected_codec.
+
+(* ---------- state.NotificationEvent ---------- *)
+(* parts: notification_decode_encode, notification_decode_wf, notification_decode_canonical *)
+Theorem C17_notification_codec :
+  (forall v bs rest, write_notification v = Some bs -> notification_wf v ->
+  read_notification (bs ++ rest) = Some (v, rest)) /\
+  (dec_wf notification_wf read_notification) /\
+  (forall bs v rest rest', bytes_ok bs -> read_notification bs = Some (v, rest) -> notification_fits v ->
+  exists bs', write_notification v = Some bs' /\ read_notification (bs' ++ rest') = Some (v, rest') /\ (length bs' + length rest <= length bs)%nat).
+Proof. exact (conj notification_decode_encode (conj notification_decode_wf notification_decode_canonical)). Qed.
+Print Assumptions C17_notification_codec.
+
+(* ---------- state.ContractInvocation ---------- *)
+(* parts: invocation_decode_encode *)
+Theorem C17_invocation_codec :
+  codec_ok invocation_wf write_invocation read_invocation.
+Proof. exact invocation_decode_encode. Qed.
+Print Assumptions C17_invocation_codec.
+
+(* ---------- state.AppExecResult ---------- *)
+(* parts: aer_decode_encode, aer_decode_wf, aer_decode_canonical, aer_decode_total, aer_stack_bounded *)
+Theorem C17_aer_codec :
+  (forall a bs rest, write_aer a = Some bs -> aer_wf a -> Forall item_fits (astack a) ->
+  read_aer (bs ++ rest) = Some (a, rest)) /\
+  (dec_wf aer_wf read_aer) /\
+  (forall bs a rest rest', bytes_ok bs -> read_aer bs = Some (a, rest) -> aer_fits a ->
+  exists bs', write_aer a = Some bs' /\ read_aer (bs' ++ rest') = Some (a, rest') /\ (length bs' + length rest <= length bs)%nat) /\
+  (dec_consumes read_aer) /\
+  (forall bs a rest, read_aer bs = Some (a, rest) -> (length (astack a) <= max_items)%nat).
+Proof. exact (conj aer_decode_encode (conj aer_decode_wf (conj aer_decode_canonical (conj aer_consumes aer_stack_bounded)))). Qed.
+Print Assumptions C17_aer_codec.
+
+(* ---------- NEF file, for every checksum function below 2^32 ---------- *)
+(* parts: nef_decode_encode, nef_decode_wf, nef_decode_canonical, nef_decode_total, nef_limits, nef_checksum_detects *)
+Theorem C17_nef_codec :
+  (forall checksum : list Z -> Z, (forall b, 0 <= checksum b < 2 ^ 32) ->
+  forall f rest, nef_wf checksum f -> read_nef checksum (write_nef f ++ rest) = Some (f, rest)) /\
+  (forall (checksum : list Z -> Z) bs f rest, bytes_ok bs -> read_nef checksum bs = Some (f, rest) ->
+  nef_wf checksum f /\ bytes_ok rest) /\
+  (forall checksum : list Z -> Z, (forall b, 0 <= checksum b < 2 ^ 32) ->
+  forall bs f rest rest', bytes_ok bs -> read_nef checksum bs = Some (f, rest) -> read_nef checksum (write_nef f ++ rest') = Some (f, rest')) /\
+  (forall checksum : list Z -> Z, dec_consumes (read_nef checksum)) /\
+  (forall (checksum : list Z -> Z) bs f rest, bytes_ok bs -> read_nef checksum bs = Some (f, rest) ->
+  Z.of_nat (length (nscript f)) <= 131070 /\ Z.of_nat (length (nsource f)) <= 256
+  /\ Forall (fun t => Z.of_nat (length (kmethod t)) <= 32) (ntokens f)
+  /\ Z.of_nat (length (ncompiler f)) <= 64 /\ Z.of_nat (length (ntokens f)) <= 16777216) /\
+  (forall (checksum : list Z -> Z) bs f rest,
+  read_nef checksum bs = Some (f, rest) -> nchecksum f = checksum (write_nef_body f)).
+Proof. exact (conj nef_decode_encode (conj nef_decode_wf (conj nef_canonical (conj nef_consumes (conj nef_limits nef_checksum_detects))))). Qed.
+Print Assumptions C17_nef_codec.
+
+(* ---------- payload.Version (with capabilities) ---------- *)
+(* parts: version_decode_encode, version_decode_wf *)
+Theorem C17_version_codec :
+  (codec_ok version_wf write_version read_version) /\
+  (dec_wf version_wf read_version).
+Proof. exact (conj version_decode_encode version_decode_wf). Qed.
+Print Assumptions C17_version_codec.
+
+(* ---------- payload.AddressList ---------- *)
+(* parts: addrlist_decode_encode, addrlist_decode_wf *)
+Theorem C17_addrlist_codec :
+  (codec_ok addrlist_wf write_addrlist read_addrlist) /\
+  (dec_wf addrlist_wf read_addrlist).
+Proof. exact (conj addrlist_decode_encode addrlist_decode_wf). Qed.
+Print Assumptions C17_addrlist_codec.
+
+(* ---------- payload.Inventory ---------- *)
+(* parts: inventory_decode_encode, inventory_decode_wf *)
+Theorem C17_inventory_codec :
+  (codec_ok inventory_wf write_inventory read_inventory) /\
+  (dec_wf inventory_wf read_inventory).
+Proof. exact (conj inventory_decode_encode inventory_decode_wf). Qed.
+Print Assumptions C17_inventory_codec.
+
+(* ---------- payload.GetBlocks ---------- *)
+(* parts: getblocks_decode_encode *)
+Theorem C17_getblocks_codec :
+  codec_ok getblocks_wf write_getblocks read_getblocks.
+Proof. exact getblocks_decode_encode. Qed.
+Print Assumptions C17_getblocks_codec.
+
+(* ---------- payload.GetBlockByIndex ---------- *)
+(* parts: getbyindex_decode_encode *)
+Theorem C17_getbyindex_codec :
+  codec_ok getbyindex_wf write_getbyindex read_getbyindex.
+Proof. exact getbyindex_decode_encode. Qed.
+Print Assumptions C17_getbyindex_codec.
+
+(* ---------- payload.Headers ---------- *)
+(* parts: headers_decode_encode, headers_decode_wf *)
+Theorem C17_headers_codec :
+  (forall sr, codec_ok (headers_wf sr) (write_headers sr) (read_headers sr)) /\
+  (forall sr, dec_wf (headers_wf sr) (read_headers sr)).
+Proof. exact (conj headers_decode_encode headers_decode_wf). Qed.
+Print Assumptions C17_headers_codec.
+
+(* ---------- payload.MPTData ---------- *)
+(* parts: mptdata_count_bounded *)
+Theorem C17_mptdata_codec :
+  forall bs l rest, read_mptdata bs = Some (l, rest) -> (length l + length rest < length bs)%nat.
+Proof. exact mptdata_count_bounded. Qed.
+Print Assumptions C17_mptdata_codec.
+
+(* ---------- payload.Extensible (envelope of consensus and state-service messages) ---------- *)
+(* parts: extensible_decode_encode, extensible_decode_wf, extensible_decode_canonical *)
+Theorem C17_extensible_codec :
+  (codec_ok extensible_wf write_extensible read_extensible) /\
+  (dec_wf extensible_wf read_extensible) /\
+  (forall bs v rest rest', bytes_ok bs -> read_extensible bs = Some (v, rest) ->
+  read_extensible (write_extensible v ++ rest') = Some (v, rest')).
+Proof. exact (conj extensible_decode_encode (conj extensible_decode_wf extensible_canonical)). Qed.
+Print Assumptions C17_extensible_codec.
+
+(* ---------- network.Message frame; compression abstract, only decompress_sane asked of it ---------- *)
+(* parts: frame_decode_encode, frame_decode_encode_compressed, frame_decode_canonical, frame_alloc_bounded, frame_decode_total *)
+Theorem C17_frame_codec :
+  (forall decompress sr f rest, frame_wf sr f -> Z.even (fflags f) = true ->
+  read_frame decompress sr (write_frame sr f ++ rest) = Some (f, rest)) /\
+  (forall compress decompress, (forall x, decompress (compress x) = Some x) ->
+  forall sr f rest, frame_wf sr f -> fpayload f <> PNull -> (1 <= length (compress (write_payload sr (fpayload f))))%nat ->
+  Z.of_nat (length (compress (write_payload sr (fpayload f)))) <= max_payload_size ->
+  read_frame decompress sr (write_frame_compressed compress sr f ++ rest) = Some (Frame (clear_compressed (fflags f) + 1) (fcmd f) (fpayload f), rest)) /\
+  (forall decompress sr bs f rest rest', bytes_ok bs -> decompress_sane decompress ->
+  read_frame decompress sr bs = Some (f, rest) ->
+  frame_wf sr f /\ read_frame decompress sr (write_frame sr f ++ rest') = Some (Frame (clear_compressed (fflags f)) (fcmd f) (fpayload f), rest')) /\
+  (forall decompress sr bs f rest, read_frame decompress sr bs = Some (f, rest) ->
+  exists l, frame_length bs = Some l /\ l <= max_payload_size /\ (Z.to_nat l + length rest + 3 <= length bs)%nat) /\
+  (forall decompress sr, dec_consumes (read_frame decompress sr)).
+Proof. exact (conj frame_decode_encode (conj frame_decode_encode_compressed (conj frame_canonical (conj frame_alloc_bounded frame_consumes)))). Qed.
+Print Assumptions C17_frame_codec.
+
+(* ---------- non-vacuity ---------- *)
 (* non-vacuity: concrete boundary values, a non-minimal form that is read but never written *)
 Example C17_prim_example :
   write_varuint 65535 = [253; 255; 255] /\ read_varuint [253; 1; 0; 7] = Some (1, [7]) /\ write_varuint 1 = [1]
   /\ read_varbytes 3 [3; 1; 2; 3] = Some ([1; 2; 3], []) /\ read_varbytes 2 [3; 1; 2; 3] = None.
 Proof. repeat split; vm_compute; reflexivity. Qed.
-
-(* ---------- transaction and its parts, header, block (pkg/core/transaction, pkg/core/block) ---------- *)
-(* per type: decode_encode (codec_ok), decoded values are well-formed (dec_wf), the re-encoding is not longer than
-   what was read (dec_min), every successful decode consumes input (dec_consumes: no stuck case, no amplification);
-   decode_canonical follows from the first two (canonical_of) *)
-
-Theorem C17_witness_decode_encode : codec_ok witness_wf write_witness read_witness.
-Proof. exact witness_decode_encode. Qed.
-Print Assumptions C17_witness_decode_encode.
-Theorem C17_witness_decode_canonical : forall bs w rest rest', bytes_ok bs -> read_witness bs = Some (w, rest) ->
-  read_witness (write_witness w ++ rest') = Some (w, rest').
-Proof. exact witness_canonical. Qed.
-Print Assumptions C17_witness_decode_canonical.
-Theorem C17_witness_size_eq : forall w, witness_wf w -> witness_size w = Z.of_nat (length (write_witness w)).
-Proof. exact witness_size_eq. Qed.
-Print Assumptions C17_witness_size_eq.
-
-Theorem C17_attr_decode_encode : codec_ok attr_wf write_attr read_attr.
-Proof. exact attr_decode_encode. Qed.
-Print Assumptions C17_attr_decode_encode.
-Theorem C17_attr_decode_canonical : forall bs a rest rest', bytes_ok bs -> read_attr bs = Some (a, rest) ->
-  read_attr (write_attr a ++ rest') = Some (a, rest').
-Proof. exact attr_canonical. Qed.
-Print Assumptions C17_attr_decode_canonical.
-
-(* witness conditions: recursive, nesting limit = the decoder's own depth argument *)
-Theorem C17_cond_decode_encode : forall d, codec_ok (cond_wf d) write_cond (read_cond d).
-Proof. exact cond_decode_encode. Qed.
-Print Assumptions C17_cond_decode_encode.
-Theorem C17_cond_decode_wf : forall d, dec_wf (cond_wf d) (read_cond d).
-Proof. exact cond_decode_wf. Qed.
-Print Assumptions C17_cond_decode_wf.
-Theorem C17_cond_decode_canonical : forall d bs c rest rest', bytes_ok bs -> read_cond d bs = Some (c, rest) ->
-  read_cond d (write_cond c ++ rest') = Some (c, rest').
-Proof. exact cond_canonical. Qed.
-Print Assumptions C17_cond_decode_canonical.
-Theorem C17_cond_depth_limit : forall d bs c rest, read_cond d bs = Some (c, rest) -> (cond_depth c <= d)%nat.
-Proof. exact cond_depth_bound. Qed.
-Print Assumptions C17_cond_depth_limit.
-Theorem C17_cond_decode_total : forall d, dec_consumes (read_cond d).
-Proof. exact cond_consumes. Qed.
-Print Assumptions C17_cond_decode_total.
-
-Theorem C17_signer_decode_encode : codec_ok signer_wf write_signer read_signer.
-Proof. exact signer_decode_encode. Qed.
-Print Assumptions C17_signer_decode_encode.
-Theorem C17_signer_decode_wf : dec_wf signer_wf read_signer.
-Proof. exact signer_decode_wf. Qed.
-Print Assumptions C17_signer_decode_wf.
-Theorem C17_signer_decode_canonical : forall bs v rest rest', bytes_ok bs -> read_signer bs = Some (v, rest) ->
-  read_signer (write_signer v ++ rest') = Some (v, rest').
-Proof. exact signer_canonical. Qed.
-Print Assumptions C17_signer_decode_canonical.
-
-(* transaction: the whole buffer (NewTransactionFromBytes) *)
-Theorem C17_tx_decode_encode : forall t, tx_wf t -> tx_from_bytes (write_tx t) = Some t.
-Proof. exact tx_roundtrip. Qed.
-Print Assumptions C17_tx_decode_encode.
-Theorem C17_tx_stream_decode_encode : codec_ok tx_wf write_tx read_tx.
-Proof. exact tx_decode_encode. Qed.
-Print Assumptions C17_tx_stream_decode_encode.
-(* decode_canonical: anything accepted re-encodes to bytes that decode to the same transaction *)
-Theorem C17_tx_decode_canonical : forall bs t, bytes_ok bs -> tx_from_bytes bs = Some t ->
-  tx_from_bytes (write_tx t) = Some t /\ tx_wf t.
-Proof. exact tx_canonical. Qed.
-Print Assumptions C17_tx_decode_canonical.
-(* size: the size of a transaction (length of its encoding) never exceeds what was received *)
-Theorem C17_tx_size_le_received : forall bs t, bytes_ok bs -> tx_from_bytes bs = Some t -> tx_size t <= Z.of_nat (length bs).
-Proof. exact tx_size_le_received. Qed.
-Print Assumptions C17_tx_size_le_received.
-(* identity cannot be taken from the received bytes: two different byte strings decode to one transaction (finding F9:
-   the unchanged NewTransactionFromBytes hashes and sizes the received bytes). In the model identity is
-   tx_hashed_bytes / tx_size, functions of the decoded value only. *)
-Theorem C17_tx_identity_not_bytes : exists bs1 bs2 t, bs1 <> bs2 /\ tx_from_bytes bs1 = Some t /\ tx_from_bytes bs2 = Some t.
-Proof. exact tx_identity_not_bytes. Qed.
-Print Assumptions C17_tx_identity_not_bytes.
-Theorem C17_tx_decode_total : dec_consumes read_tx.
-Proof. exact tx_consumes. Qed.
-Print Assumptions C17_tx_decode_total.
-
-(* header and block *)
-Theorem C17_header_decode_encode : forall sr h, header_wf sr h -> decode_all (read_header sr) (write_header sr h) = Some h.
-Proof. exact header_roundtrip. Qed.
-Print Assumptions C17_header_decode_encode.
-Theorem C17_header_decode_canonical : forall sr bs h, bytes_ok bs -> decode_all (read_header sr) bs = Some h ->
-  decode_all (read_header sr) (write_header sr h) = Some h /\ header_wf sr h /\ (length (write_header sr h) <= length bs)%nat.
-Proof. exact header_whole_canonical. Qed.
-Print Assumptions C17_header_decode_canonical.
-Theorem C17_block_decode_encode : forall sr b, block_wf sr b -> decode_all (read_block sr) (write_block sr b) = Some b.
-Proof. exact block_roundtrip. Qed.
-Print Assumptions C17_block_decode_encode.
-Theorem C17_block_decode_canonical : forall sr bs b, bytes_ok bs -> decode_all (read_block sr) bs = Some b ->
-  decode_all (read_block sr) (write_block sr b) = Some b /\ block_wf sr b /\ (length (write_block sr b) <= length bs)%nat.
-Proof. exact block_whole_canonical. Qed.
-Print Assumptions C17_block_decode_canonical.
-(* no amplification: the number of transactions a block decoder returns is below the number of bytes it consumed *)
-Theorem C17_block_tx_count_bounded : forall sr bs b rest,
-  read_block sr bs = Some (b, rest) -> (length (btxs b) + length rest < length bs)%nat.
-Proof. exact block_tx_count_bounded. Qed.
-Print Assumptions C17_block_tx_count_bounded.
-
 (* non-vacuity: a concrete well-formed transaction with a Rules signer (And [Not (Boolean false); CalledByEntry]),
    two attributes and two witnesses round-trips; a 4-level condition is rejected *)
 Example C17_tx_example : tx_wf ex_tx /\ tx_from_bytes (write_tx ex_tx) = Some ex_tx.
 Proof. split; [exact (proj1 ex_tx_wf)|exact ex_tx_roundtrip]. Qed.
-
-(* ---------- stack-item serialisation (pkg/vm/stackitem/serialization.go) ---------- *)
-
-(* the stateful serialiser (budget of items, MaxSize check after every item) is the pure encoding under two limits *)
-Theorem C17_item_serialize_spec : forall i,
-  serialize i = if plain i && (count_item i <=? max_items)%nat && (Z.of_nat (length (enc_item i)) <=? max_size)
-                then Some (enc_item i) else None.
-Proof. exact serialize_spec. Qed.
-Print Assumptions C17_item_serialize_spec.
-
-(* decode_encode, with the item budget threaded through the decoder *)
-Theorem C17_item_decode_encode : forall i bs, item_wf i -> serialize i = Some bs -> deserialize bs = Some i.
-Proof. exact deserialize_serialize. Qed.
-Print Assumptions C17_item_decode_encode.
-
-(* decoded values are well-formed (32-byte integers, valid distinct map keys) and within the count limit *)
-Theorem C17_item_decode_wf : forall bs i, bytes_ok bs -> deserialize bs = Some i -> item_wf i.
-Proof. exact deserialize_wf. Qed.
-Print Assumptions C17_item_decode_wf.
-Theorem C17_item_count_bounded : forall bs i, deserialize bs = Some i -> (count_item i <= max_items)%nat.
-Proof. exact deserialize_limits. Qed.
-Print Assumptions C17_item_count_bounded.
-
-(* decode_canonical: an accepted input within MaxSize re-serialises (never longer) to bytes that decode to the same item *)
-Theorem C17_item_decode_canonical : forall bs i,
-  bytes_ok bs -> Z.of_nat (length bs) <= max_size -> deserialize bs = Some i ->
-  exists bs', serialize i = Some bs' /\ deserialize bs' = Some i /\ (length bs' <= length bs)%nat.
-Proof. exact deserialize_canonical. Qed.
-Print Assumptions C17_item_decode_canonical.
-
-(* decode_total: fuel beyond the input length changes nothing — a None is a rejection, never "out of fuel";
-   every successful decode consumes input and stays within the budget *)
-Theorem C17_item_decode_total : forall prot f f' lim bs,
-  (length bs < f)%nat -> (length bs < f')%nat -> read_item prot f lim bs = read_item prot f' lim bs.
-Proof. exact read_item_fuel_enough. Qed.
-Print Assumptions C17_item_decode_total.
-Theorem C17_item_decode_budget : forall prot f lim bs i lim' rest,
-  read_item prot f lim bs = Some (i, lim', rest) -> (lim' + count_item i <= lim)%nat /\ (length rest < length bs)%nat.
-Proof. exact read_item_budget. Qed.
-Print Assumptions C17_item_decode_budget.
-
 (* non-vacuity: a Map with Integer, Boolean and ByteString keys holding an Array of a Struct and -2^255 *)
 Example C17_item_example : item_wf ex_item /\ deserialize (enc_item ex_item) = Some ex_item /\ count_item ex_item = 17%nat.
 Proof. split; [exact ex_item_wf|]. split; vm_compute; reflexivity. Qed.
-
-(* ================= extension round: MPT nodes, state root, execution results, NEF, P2P ================= *)
-
-(* ---------- MPT node encodings (pkg/core/mpt), for every node hash function of 32 bytes ---------- *)
-(* decode_encode for canonical nodes (children are references or empty: all the encoder ever writes) *)
-Theorem C17_mptnode_decode_encode : forall H : list Z -> list Z, (forall b, length (H b) = 32%nat) ->
-  forall n f d rest, mnode_wf n -> mnode_canonical n -> (2 <= f)%nat -> d + node_levels n <= 137 ->
-  read_node f d (write_node H n ++ rest) = Some (n, rest).
-Proof. exact node_decode_encode. Qed.
-Print Assumptions C17_mptnode_decode_encode.
-(* for ANY well-formed node: decoding its encoding gives the node with its children replaced by their references *)
-Theorem C17_mptnode_decode_collapse : forall H : list Z -> list Z, (forall b, length (H b) = 32%nat) ->
-  forall n f d rest, mnode_wf n -> (2 <= f)%nat -> d + node_levels n <= 137 ->
-  read_node f d (write_node H n ++ rest) = Some (collapse1 H n, rest).
-Proof. exact node_decode_collapse. Qed.
-Print Assumptions C17_mptnode_decode_collapse.
-(* decode_wf with the nesting limit (maxPathLength) and the allocation bounds of keys and values inside mnode_wf *)
-Theorem C17_mptnode_decode_wf : forall f d bs n rest, bytes_ok bs -> read_node f d bs = Some (n, rest) ->
-  mnode_wf n /\ bytes_ok rest /\ (length rest < length bs)%nat /\ Z.of_nat (mnode_depth n) + d <= 137.
-Proof. exact node_decode_wf. Qed.
-Print Assumptions C17_mptnode_decode_wf.
-(* decode_canonical: inline children are ACCEPTED by the decoder (F8) but the re-encoding carries references only;
-   the hash - identity of a node - is that of the canonical form *)
-Theorem C17_mptnode_decode_canonical : forall H : list Z -> list Z, (forall b, length (H b) = 32%nat) ->
-  forall bs n rest rest', bytes_ok bs -> decode_node bs = Some (n, rest) ->
-  decode_node (write_node H n ++ rest') = Some (collapse1 H n, rest').
-Proof. exact node_decode_canonical. Qed.
-Print Assumptions C17_mptnode_decode_canonical.
-Theorem C17_mptnode_hash_content_only : forall (H : list Z -> list Z) n, node_hash H (collapse1 H n) = node_hash H n.
-Proof. exact node_hash_collapse1. Qed.
-Print Assumptions C17_mptnode_hash_content_only.
-Theorem C17_mptnode_reencoding_bound : forall H : list Z -> list Z, (forall b, length (H b) = 32%nat) ->
-  forall f d bs n rest, bytes_ok bs -> read_node f d bs = Some (n, rest) ->
-  (length (write_node H n) + length rest <= length bs + 32 * inline_count n)%nat.
-Proof. exact node_reencoding_bound. Qed.
-Print Assumptions C17_mptnode_reencoding_bound.
-Theorem C17_mptnode_decode_total : forall f f' d bs, (length bs < f)%nat -> (length bs < f')%nat -> read_node f d bs = read_node f' d bs.
-Proof. exact node_decode_total. Qed.
-Print Assumptions C17_mptnode_decode_total.
-Theorem C17_mptnode_size_eq : forall H : list Z -> list Z, (forall b, length (H b) = 32%nat) ->
-  forall n, mnode_wf n -> (forall k nx, n = MExt k nx -> nx <> MEmpty) -> node_size n + 1 = Z.of_nat (length (write_node H n)).
-Proof. exact node_size_eq. Qed.
-Print Assumptions C17_mptnode_size_eq.
-(* the byte-level codec and the trie model of C10/C20 (coq/Trie/Model.v) speak about the same bytes; the exclusion is
-   the footprint of F19 (the trie model follows Go's PutVarUint at length 65535) *)
-Theorem C17_node_codec_is_trie_enc : forall (H : list N -> list N) t, trie_wf t -> no_leaf_65535 t ->
-  map Z.of_N (NG.Trie.Model.enc H t) = write_node (HZ H) (of_trie t).
-Proof. exact node_codec_is_trie_enc. Qed.
-Print Assumptions C17_node_codec_is_trie_enc.
-Theorem C17_node_decoder_is_trie_decode : forall f d bs,
-  option_map (fun p => (to_trie (fst p), map Z.to_N (snd p))) (read_node f (Z.of_N d) (map Z.of_N bs)) = NG.Trie.Model.decode f d bs.
-Proof. exact node_decoder_is_trie_decode. Qed.
-Print Assumptions C17_node_decoder_is_trie_decode.
-
-(* ---------- state.MPTRoot ---------- *)
-Theorem C17_mptroot_decode_encode : codec_ok mptroot_wf write_mptroot read_mptroot.
-Proof. exact mptroot_decode_encode. Qed.
-Print Assumptions C17_mptroot_decode_encode.
-Theorem C17_mptroot_decode_wf : dec_wf mptroot_wf read_mptroot.
-Proof. exact mptroot_decode_wf. Qed.
-Print Assumptions C17_mptroot_decode_wf.
-Theorem C17_mptroot_decode_canonical : forall bs r, bytes_ok bs -> decode_all read_mptroot bs = Some r ->
-  decode_all read_mptroot (write_mptroot r) = Some r /\ mptroot_wf r /\ (length (write_mptroot r) <= length bs)%nat.
-Proof. exact mptroot_whole_canonical. Qed.
-Print Assumptions C17_mptroot_decode_canonical.
-Theorem C17_mptroot_decode_total : dec_consumes read_mptroot.
-Proof. exact mptroot_consumes. Qed.
-Print Assumptions C17_mptroot_decode_total.
-Theorem C17_mptroot_size_eq : forall r, mptroot_wf r -> Z.of_nat (length (write_mptroot r)) = 37 + array_size witness_size (rwitness r).
-Proof. exact mptroot_size_eq. Qed.
-Print Assumptions C17_mptroot_size_eq.
-(* the hashed part is a function of version, index and root only: the witness encoding does not enter the identity *)
-Theorem C17_mptroot_hash_content_only : forall bs1 bs2 r1 r2 rest1 rest2,
-  read_mptroot bs1 = Some (r1, rest1) -> read_mptroot bs2 = Some (r2, rest2) ->
-  rversion r1 = rversion r2 -> rindex r1 = rindex r2 -> rroot r1 = rroot r2 ->
-  write_mptroot_unsigned r1 = write_mptroot_unsigned r2.
-Proof. exact mptroot_hash_content_only. Qed.
-Print Assumptions C17_mptroot_hash_content_only.
-
-(* ---------- NotificationEvent / ContractInvocation / AppExecResult (on top of the item codec, protected mode) ---------- *)
-Theorem C17_item_protected_decode_encode : forall i, item_wf_p i -> (count_item i <= max_items)%nat -> deserialize_gen true (enc_item i) = Some i.
-Proof. exact deserialize_p_enc. Qed.
-Print Assumptions C17_item_protected_decode_encode.
-Theorem C17_item_protected_total : forall i,
-  serialize_prot i = if (count_item i <=? max_items)%nat && (Z.of_nat (length (enc_item i)) <=? max_size) then enc_item i else [255].
-Proof. exact serialize_prot_total. Qed.
-Print Assumptions C17_item_protected_total.
-Theorem C17_notification_decode_encode : forall v bs rest, write_notification v = Some bs -> notification_wf v ->
-  read_notification (bs ++ rest) = Some (v, rest).
-Proof. exact notification_decode_encode. Qed.
-Print Assumptions C17_notification_decode_encode.
-Theorem C17_notification_decode_wf : dec_wf notification_wf read_notification.
-Proof. exact notification_decode_wf. Qed.
-Print Assumptions C17_notification_decode_wf.
-Theorem C17_notification_decode_canonical : forall bs v rest rest', bytes_ok bs -> read_notification bs = Some (v, rest) -> notification_fits v ->
-  exists bs', write_notification v = Some bs' /\ read_notification (bs' ++ rest') = Some (v, rest') /\ (length bs' + length rest <= length bs)%nat.
-Proof. exact notification_decode_canonical. Qed.
-Print Assumptions C17_notification_decode_canonical.
-Theorem C17_invocation_decode_encode : codec_ok invocation_wf write_invocation read_invocation.
-Proof. exact invocation_decode_encode. Qed.
-Print Assumptions C17_invocation_decode_encode.
-Theorem C17_aer_decode_encode : forall a bs rest, write_aer a = Some bs -> aer_wf a -> Forall item_fits (astack a) ->
-  read_aer (bs ++ rest) = Some (a, rest).
-Proof. exact aer_decode_encode. Qed.
-Print Assumptions C17_aer_decode_encode.
-Theorem C17_aer_decode_wf : dec_wf aer_wf read_aer.
-Proof. exact aer_decode_wf. Qed.
-Print Assumptions C17_aer_decode_wf.
-Theorem C17_aer_decode_canonical : forall bs a rest rest', bytes_ok bs -> read_aer bs = Some (a, rest) -> aer_fits a ->
-  exists bs', write_aer a = Some bs' /\ read_aer (bs' ++ rest') = Some (a, rest') /\ (length bs' + length rest <= length bs)%nat.
-Proof. exact aer_decode_canonical. Qed.
-Print Assumptions C17_aer_decode_canonical.
-Theorem C17_aer_decode_total : dec_consumes read_aer.
-Proof. exact aer_consumes. Qed.
-Print Assumptions C17_aer_decode_total.
-Theorem C17_aer_stack_bounded : forall bs a rest, read_aer bs = Some (a, rest) -> (length (astack a) <= max_items)%nat.
-Proof. exact aer_stack_bounded. Qed.
-Print Assumptions C17_aer_stack_bounded.
-
-(* ---------- NEF file, for every checksum function with values below 2^32 ---------- *)
-Theorem C17_nef_decode_encode : forall checksum : list Z -> Z, (forall b, 0 <= checksum b < 2 ^ 32) ->
-  forall f rest, nef_wf checksum f -> read_nef checksum (write_nef f ++ rest) = Some (f, rest).
-Proof. exact nef_decode_encode. Qed.
-Print Assumptions C17_nef_decode_encode.
-Theorem C17_nef_decode_wf : forall (checksum : list Z -> Z) bs f rest, bytes_ok bs -> read_nef checksum bs = Some (f, rest) ->
-  nef_wf checksum f /\ bytes_ok rest.
-Proof. exact nef_decode_wf. Qed.
-Print Assumptions C17_nef_decode_wf.
-Theorem C17_nef_decode_canonical : forall checksum : list Z -> Z, (forall b, 0 <= checksum b < 2 ^ 32) ->
-  forall bs f rest rest', bytes_ok bs -> read_nef checksum bs = Some (f, rest) -> read_nef checksum (write_nef f ++ rest') = Some (f, rest').
-Proof. exact nef_canonical. Qed.
-Print Assumptions C17_nef_decode_canonical.
-Theorem C17_nef_decode_total : forall checksum : list Z -> Z, dec_consumes (read_nef checksum).
-Proof. exact nef_consumes. Qed.
-Print Assumptions C17_nef_decode_total.
-(* limits = allocation bounds of everything the decoder accepts *)
-Theorem C17_nef_limits : forall (checksum : list Z -> Z) bs f rest, bytes_ok bs -> read_nef checksum bs = Some (f, rest) ->
-  Z.of_nat (length (nscript f)) <= 131070 /\ Z.of_nat (length (nsource f)) <= 256
-  /\ Forall (fun t => Z.of_nat (length (kmethod t)) <= 32) (ntokens f)
-  /\ Z.of_nat (length (ncompiler f)) <= 64 /\ Z.of_nat (length (ntokens f)) <= 16777216.
-Proof. exact nef_limits. Qed.
-Print Assumptions C17_nef_limits.
-Theorem C17_nef_checksum_detects : forall (checksum : list Z -> Z) bs f rest,
-  read_nef checksum bs = Some (f, rest) -> nchecksum f = checksum (write_nef_body f).
-Proof. exact nef_checksum_detects. Qed.
-Print Assumptions C17_nef_checksum_detects.
-
-(* ---------- P2P payloads that are pure data, the extensible envelope, the frame ---------- *)
-Theorem C17_version_decode_encode : codec_ok version_wf write_version read_version.
-Proof. exact version_decode_encode. Qed.
-Print Assumptions C17_version_decode_encode.
-Theorem C17_version_decode_wf : dec_wf version_wf read_version.
-Proof. exact version_decode_wf. Qed.
-Print Assumptions C17_version_decode_wf.
-Theorem C17_addrlist_decode_encode : codec_ok addrlist_wf write_addrlist read_addrlist.
-Proof. exact addrlist_decode_encode. Qed.
-Print Assumptions C17_addrlist_decode_encode.
-Theorem C17_addrlist_decode_wf : dec_wf addrlist_wf read_addrlist.
-Proof. exact addrlist_decode_wf. Qed.
-Print Assumptions C17_addrlist_decode_wf.
-Theorem C17_inventory_decode_encode : codec_ok inventory_wf write_inventory read_inventory.
-Proof. exact inventory_decode_encode. Qed.
-Print Assumptions C17_inventory_decode_encode.
-Theorem C17_inventory_decode_wf : dec_wf inventory_wf read_inventory.
-Proof. exact inventory_decode_wf. Qed.
-Print Assumptions C17_inventory_decode_wf.
-Theorem C17_getblocks_decode_encode : codec_ok getblocks_wf write_getblocks read_getblocks.
-Proof. exact getblocks_decode_encode. Qed.
-Print Assumptions C17_getblocks_decode_encode.
-Theorem C17_getbyindex_decode_encode : codec_ok getbyindex_wf write_getbyindex read_getbyindex.
-Proof. exact getbyindex_decode_encode. Qed.
-Print Assumptions C17_getbyindex_decode_encode.
-Theorem C17_headers_decode_encode : forall sr, codec_ok (headers_wf sr) (write_headers sr) (read_headers sr).
-Proof. exact headers_decode_encode. Qed.
-Print Assumptions C17_headers_decode_encode.
-Theorem C17_headers_decode_wf : forall sr, dec_wf (headers_wf sr) (read_headers sr).
-Proof. exact headers_decode_wf. Qed.
-Print Assumptions C17_headers_decode_wf.
-Theorem C17_mptdata_count_bounded : forall bs l rest, read_mptdata bs = Some (l, rest) -> (length l + length rest < length bs)%nat.
-Proof. exact mptdata_count_bounded. Qed.
-Print Assumptions C17_mptdata_count_bounded.
-Theorem C17_extensible_decode_encode : codec_ok extensible_wf write_extensible read_extensible.
-Proof. exact extensible_decode_encode. Qed.
-Print Assumptions C17_extensible_decode_encode.
-Theorem C17_extensible_decode_wf : dec_wf extensible_wf read_extensible.
-Proof. exact extensible_decode_wf. Qed.
-Print Assumptions C17_extensible_decode_wf.
-Theorem C17_extensible_decode_canonical : forall bs v rest rest', bytes_ok bs -> read_extensible bs = Some (v, rest) ->
-  read_extensible (write_extensible v ++ rest') = Some (v, rest').
-Proof. exact extensible_canonical. Qed.
-Print Assumptions C17_extensible_decode_canonical.
-
-(* the frame: compression is an abstract function; only [decompress_sane] (what is decompressed from at most 32 MB of
-   well-formed bytes is well-formed and at most 32 MB, as network.decompress enforces) is asked of it *)
-Theorem C17_frame_decode_encode : forall decompress sr f rest, frame_wf sr f -> Z.even (fflags f) = true ->
-  read_frame decompress sr (write_frame sr f ++ rest) = Some (f, rest).
-Proof. exact frame_decode_encode. Qed.
-Print Assumptions C17_frame_decode_encode.
-Theorem C17_frame_decode_encode_compressed : forall compress decompress, (forall x, decompress (compress x) = Some x) ->
-  forall sr f rest, frame_wf sr f -> fpayload f <> PNull -> (1 <= length (compress (write_payload sr (fpayload f))))%nat ->
-  Z.of_nat (length (compress (write_payload sr (fpayload f)))) <= max_payload_size ->
-  read_frame decompress sr (write_frame_compressed compress sr f ++ rest) = Some (Frame (clear_compressed (fflags f) + 1) (fcmd f) (fpayload f), rest).
-Proof. exact frame_decode_encode_compressed. Qed.
-Print Assumptions C17_frame_decode_encode_compressed.
-(* decode_canonical: whatever compressed, padded or non-minimal form was received, the uncompressed re-encoding decodes
-   to the same command and payload *)
-Theorem C17_frame_decode_canonical : forall decompress sr bs f rest rest', bytes_ok bs -> decompress_sane decompress ->
-  read_frame decompress sr bs = Some (f, rest) ->
-  frame_wf sr f /\ read_frame decompress sr (write_frame sr f ++ rest') = Some (Frame (clear_compressed (fflags f)) (fcmd f) (fpayload f), rest').
-Proof. exact frame_canonical. Qed.
-Print Assumptions C17_frame_decode_canonical.
-(* allocation: the announced length is at most 32 MB and is backed by input bytes *)
-Theorem C17_frame_alloc_bounded : forall decompress sr bs f rest, read_frame decompress sr bs = Some (f, rest) ->
-  exists l, frame_length bs = Some l /\ l <= max_payload_size /\ (Z.to_nat l + length rest + 3 <= length bs)%nat.
-Proof. exact frame_alloc_bounded. Qed.
-Print Assumptions C17_frame_alloc_bounded.
-Theorem C17_frame_decode_total : forall decompress sr, dec_consumes (read_frame decompress sr).
-Proof. exact frame_consumes. Qed.
-Print Assumptions C17_frame_decode_total.
